@@ -272,11 +272,57 @@ def guard_of(mode, level, static=5):
     return LEVELNUM[level] <= n
 
 
-def check_record(case, t, rec, mode, parent_id, static=5):
+def record_all_ticks(t):
+    return [it["tick"] for op in t.post if op["op"] == "record_all" for it in op["items"]]
+
+
+def log_formats(t, mode):
+    """[spec_log_formats] for a `nd*` phase of the `log` build: no dispatcher was ever set, log's static cap is TRACE."""
+    if t.kind == "span":
+        return True
+    wants = mode != "ndoff"
+    mx = int(mode[5:]) if mode.startswith("ndmax") else 5
+    return wants and LEVELNUM[t.level] <= mx
+
+
+def check_nd(t, rec, mode):
+    """A phase without any dispatcher (only in the `log` build).  Returns (property failures, deviations from the
+    documented log behaviour).  The property cannot demand `evaluates nothing` here: with `log` on and no dispatcher the
+    disabled branch hands the fields to the `log` crate (C18) - what must hold is that nothing is evaluated TWICE, and
+    the exact pattern is compared with [spec_log_formats] as a tie."""
+    bad, dev = [], []
+    if rec["ret"] == "panic":
+        return ["the invocation panicked"], dev
+    if rec["d"] or rec["en"]:
+        bad.append("no dispatcher was set but a collector was called: %s" % [d["cb"] for d in rec["d"]])
+    if any(x > 1 for x in rec["t"]):
+        bad.append("a field/message expression was evaluated more than once: counters %s" % rec["t"])
+    if t.kind == "enabled":
+        if rec["ret"] != 0 or rec["t"]:
+            bad.append("%s! without a dispatcher returned %s / evaluated %s" % (t.macro, rec["ret"], rec["t"]))
+        return bad, dev
+    nt = t.nticks()
+    got = rec["t"] + [0] * (nt - len(rec["t"]))
+    ra = set(record_all_ticks(t))
+    f = log_formats(t, mode)
+    want = [1 if (f or i in ra) else 0 for i in range(nt)]
+    if got != want:
+        dev.append("counters %s, documented log behaviour gives %s (%s!, level %s, phase %s)" % (got, want, t.macro, t.level, mode))
+    return bad, dev
+
+
+def check_record(case, t, rec, mode, parent_id, static=5, form_bad=None, logbuild=False):
     """Oracle: list of human-readable failures of the property on one (template, round, collector) observation."""
     bad = []
     r = rec["r"]
     g = guard_of(mode, t.level, static)
+    if logbuild and not g and rec["ret"] != "panic":
+        # `log` build: a disabled span still carries its metadata, so a later record_all!(span, ..) builds its value set;
+        # record_all! is not one of the macros C10 speaks about
+        ra = set(record_all_ticks(t))
+        rec = dict(rec, t=[0 if i in ra else x for i, x in enumerate(rec["t"])])
+        while rec["t"] and rec["t"][-1] == 0:
+            rec["t"].pop()
     if static < 5:
         mode = "%s + static max level %d" % (mode, static)
     if rec["ret"] == "panic":
@@ -314,15 +360,20 @@ def check_record(case, t, rec, mode, parent_id, static=5):
     if d0["fields"] != [hx(n) for n in names]:
         bad.append("declared names %s, expected %s" % ([bytes.fromhex(x).decode("utf-8", "replace") for x in d0["fields"]], names))
     bad += cmp_visits(d0["v"], vis, "fields")
+    # level / name: / target: / parent: are not part of C10's text (fields only): a mismatch means the corpus does not
+    # exercise the form it says it does, which is reported as a broken tie, not as a violation of the property
+    form = []
     if d0["level"] != LEVELNUM[t.level]:
-        bad.append("level %s, written %s" % (d0["level"], t.level))
+        form.append("level %s, written %s" % (d0["level"], t.level))
     if t.target is not None and d0["target"] != hx(t.target):
-        bad.append("target: prefix not honoured")
+        form.append("target: prefix not honoured")
     if t.name is not None and d0["name"] != hx(t.name):
-        bad.append("name not honoured")
+        form.append("name not honoured")
     wantp = {"span": "explicit:%d" % parent_id, "none": "root", None: "current"}[t.parent]
     if d0["parent"] != wantp:
-        bad.append("parent %s, expected %s" % (d0["parent"], wantp))
+        form.append("parent %s, expected %s" % (d0["parent"], wantp))
+    if form and form_bad is not None:
+        form_bad.append({"template": describe(t), "round": r, "collector": mode, "what": form})
     rest = rec["d"][1:]
     if t.kind == "event" and rest:
         bad.append("extra callbacks %s" % [d["cb"] for d in rest])
@@ -485,7 +536,20 @@ def prefix_string(t):
     return ",".join(p)
 
 
-def coq_case(case, t, r, mode, static=5):
+def coq_logstate(t, mode):
+    """(mk_ls ..) of the `log` build in the given phase"""
+    nd = mode.startswith("nd")
+    wants = mode != "ndoff"
+    mx = int(mode[5:]) if mode.startswith("ndmax") else 5
+    b = lambda x: "true" if x else "false"
+    return "(mk_ls LogOn true %s %s %s)" % (b(not nd), b(LEVELNUM[t.level] <= mx), b(wants))
+
+
+def coq_case(case, t, r, mode, static=5, logbuild=False):
+    cmode = "never" if mode.startswith("nd") else mode      # no dispatcher: NoCollector answers `never`
+    if logbuild and t.kind != "enabled":
+        return coq_case(case, t, r, cmode, static).replace("cC ", "cL %s " % coq_logstate(t, mode), 1)
+    mode = cmode
     if t.kind == "enabled":
         items = [dict(it, form="sh", tick=None) for it in t.items]
         return "cE %s %d %s" % (coq_fields(case, items, False, None, r), LEVELNUM[t.level], coq_collector(mode, static))
@@ -634,6 +698,10 @@ def run(ctx):
     static_plans = [["always:3:2", "sometimes:2:8", "cap5:1:1", "caps2:1:4", "never:1", "dyn:1:6"]]
     if ctx.thorough():
         static_plans.append(["dyn:1:3", "caps4:2:9", "always:%d" % R])
+    # the `log` side: same corpus, tracing compiled with its `log` feature, a logger installed; first without any dispatcher
+    log_plans = [["ndon:2", "ndoff:1:3", "ndmax3:1:5", "ndmax1:1:7", "always:2:1", "never:1:2", "dyn:1:4", "caps2:1:6"]]
+    if ctx.thorough():
+        log_plans.append(["ndmax4:2:9", "ndoff:2", "ndon:%d" % R, "sometimes:2:3", "cap0:1"])
     runs = []             # (profile, plan index, plan, output, static cap)
 
     def build_and_run(binname, features, rel, plist, static):
@@ -642,9 +710,11 @@ def run(ctx):
         if not ok:
             rep.tie("build:" + tag, False, vlib.last_error(log))
             return False
-        # regression corpus first (normal build only)
-        if static == 5 and not rel:
+        # regression corpus first (debug builds; an entry says which of the three binaries it is for)
+        if not rel:
             for e, t in load_regressions(tpls):
+                if e.get("bin", "h_fields") != binname:
+                    continue
                 rep.count("corpus")
                 if t is None:
                     rep.count("corpus:stale")
@@ -654,13 +724,14 @@ def run(ctx):
                 if rc != 0:
                     rep.tie("run:corpus", False, "rc=%d %s" % (rc, vlib.last_error(out)))
                     continue
-                runs.append(("corpus", 0, [e["mode"]], out, 5))
+                runs.append(("corpus" + ("-log" if binname.endswith("_log") else ""), 0, [e["mode"]], out, static))
         for pi, plan in enumerate(plist):
             rc, out = run_bin(paths[binname], [data_path] + plan, timeout=900)
             if rc != 0:
                 rep.tie("run:" + tag, False, "rc=%d %s" % (rc, vlib.last_error(out)))
                 return False
-            runs.append((("release" if rel else "debug") + ("-static" if static < 5 else ""), pi, plan, out, static))
+            runs.append((("release" if rel else "debug") + ("-static" if static < 5 else "") + ("-log" if binname.endswith("_log") else ""),
+                         pi, plan, out, static))
         return True
 
     for rel in [False] + ([True] if ctx.thorough() else []):
@@ -668,14 +739,21 @@ def run(ctx):
             return rep
     if not build_and_run("h_fields_static", ["static_info"], False, static_plans, STATIC_FEATURE_CAP):
         return rep
+    if not build_and_run("h_fields_log", ["with_log"], False, log_plans, 5):
+        return rep
     # ---- oracle over every observation
     case = None
     model_cases = {}      # key -> (template, impl record, refs)
     n_model_target = 6000 if ctx.thorough() else 2600
     n_static_target = n_model_target // 5
+    n_log_target = n_model_target // 4
     n_static = 0
     seen_tpl = set()
+    form_bad = []
+    log_dev = []
+    n_log = n_nd = 0
     for prof, pi, plan, out, static in runs:
+        logbuild = prof.endswith("-log")
         refs = {}
         phase_mode = {}
         phase_parent = {}
@@ -691,7 +769,13 @@ def run(ctx):
                 if rec["static_max"] != static:
                     rep.tie("harness:static-max-level", False, "%s build reports STATIC_MAX_LEVEL %s, expected %d" % (prof, rec["static_max"], static))
                 continue
+            if "log_feature" in rec:
+                if rec["log_feature"] != logbuild:
+                    rep.tie("harness:log-feature", False, "%s build reports log_feature=%s" % (prof, rec["log_feature"]))
+                continue
             if "phase" in rec:
+                if rec["mode"].startswith("nd") and rec.get("has_been_set"):
+                    rep.tie("harness:no-dispatcher-phase", False, "dispatch::has_been_set() is true in phase %s" % rec["mode"])
                 phase_mode[rec["phase"]] = rec["mode"]
                 phase_parent[rec["phase"]] = rec["parent_id"]
                 case = Case(D, refs, R)
@@ -700,7 +784,25 @@ def run(ctx):
             mode = phase_mode[rec["ph"]]
             rep.evaluations += 1
             rep.traces_validated += 1
-            rep.count("collector:" + mode.rstrip("0123456789") + ("+static" if static < 5 else ""))
+            if mode.startswith("nd"):
+                # no dispatcher at all (log build): the documented log behaviour, as a tie; the oracle keeps what it can demand
+                n_nd += 1
+                rep.count("collector:none(log build):" + mode)
+                rep.count("disabled")
+                rep.count("disabled-branch-feeds-log" if (t.kind != "enabled" and log_formats(t, mode) and t.nticks()) else "disabled-branch-idle")
+                bad, dev = check_nd(t, rec, mode)
+                for b in bad[:2]:
+                    rep.violation("%s [%s!, template %d, round %d, no dispatcher (%s), %s build]" % (b, t.macro, t.id, rec["r"], mode, prof),
+                                  {"template": describe(t), "round": rec["r"], "collector": mode, "profile": prof, "observed": rec,
+                                   "replay_cmd": "h_fields_log <data> --only %d %s:1:%d   (data = seed %d, R = %d)" % (t.id, mode, rec["r"], ctx.seed, R)})
+                for d_ in dev:
+                    log_dev.append({"template": describe(t), "round": rec["r"], "phase": mode, "what": d_})
+                key = (t.id, rec["r"], mode, static, True)
+                if key not in model_cases and n_log < n_log_target and ctx.rng.random() < 0.2:
+                    n_log += 1
+                    model_cases[key] = (t, rec, refs)
+                continue
+            rep.count("collector:" + mode.rstrip("0123456789") + ("+static" if static < 5 else "") + ("+log" if logbuild else ""))
             g = guard_of(mode, t.level, static)
             rep.count("enabled" if g else "disabled")
             if static < 5 and LEVELNUM[t.level] > static:
@@ -712,25 +814,31 @@ def run(ctx):
             if g and (t.items or t.fmt):
                 rep.nontrivial.add((t.macro, prefix_string(t), t.brace, tuple(sorted((i["form"], i["nk"], i.get("sigil")) for i in t.items)),
                                     tuple(sorted(i["vk"] for i in t.items)), t.fmt is not None))
-            bad = check_record(case, t, rec, mode, phase_parent[rec["ph"]], static)
-            binname = "h_fields_static" if static < 5 else "h_fields"
+            bad = check_record(case, t, rec, mode, phase_parent[rec["ph"]], static, form_bad, logbuild)
+            binname = "h_fields_static" if static < 5 else ("h_fields_log" if logbuild else "h_fields")
             for b in bad[:2]:
                 rep.violation("%s [%s!, template %d, round %d, collector %s, %s build]" % (b, t.macro, t.id, rec["r"], mode, prof),
                               {"template": describe(t), "round": rec["r"], "collector": mode, "profile": prof, "static_max_level": static,
                                "observed": rec,
                                "replay_cmd": "%s <data> --only %d %s:1:%d   (data = seed %d, R = %d)" % (binname, t.id, mode, rec["r"], ctx.seed, R)})
             # choose cases for the model: every template under `always` at two rounds + a seeded sample of everything else
-            key = (t.id, rec["r"], mode, static)
-            if prof in ("debug", "debug-static", "corpus") and key not in model_cases:
-                if static < 5:
+            key = (t.id, rec["r"], mode, static, logbuild)
+            if prof in ("debug", "debug-static", "debug-log", "corpus", "corpus-log") and key not in model_cases:
+                if logbuild:
+                    take = n_log < n_log_target and ctx.rng.random() < 0.2
+                    n_log += take
+                elif static < 5:
                     take = n_static < n_static_target and ctx.rng.random() < 0.25
                     n_static += take
                 else:
-                    take = prof == "corpus" or (mode == "always" and pi == 0 and rec["r"] in ((t.id * 7) % R, (t.id * 3 + 11) % R)) \
+                    take = prof.startswith("corpus") or (mode == "always" and pi == 0 and rec["r"] in ((t.id * 7) % R, (t.id * 3 + 11) % R)) \
                         or ctx.rng.random() < 0.012
-                    take = take and len(model_cases) - n_static < n_model_target
+                    take = take and len(model_cases) - n_static - n_log < n_model_target
                 if take:
                     model_cases[key] = (t, rec, refs)
+    rep.tie("corpus-form:level/name/target/parent-as-written", not form_bad, "%d observations" % len(form_bad), form_bad[:1] or None)
+    rep.tie("log-feature:disabled-branch-evaluates-exactly-as-documented", not log_dev,
+            "%d of %d no-dispatcher observations deviate from spec_log_formats" % (len(log_dev), n_nd), log_dev[:1] or None)
     ctx.log("oracle done: %d observations, %d violations" % (rep.evaluations, len(rep.violations)))
     # ---- model evaluation on the same cases
     try:
@@ -741,7 +849,7 @@ def run(ctx):
             cs = []
             for k in keys[i:i + chunk]:
                 t, rec, refs = model_cases[k]
-                cs.append(coq_case(Case(D, refs, R), t, k[1], k[2], k[3]))
+                cs.append(coq_case(Case(D, refs, R), t, k[1], k[2], k[3], k[4]))
             terms.append(("c%d" % i, "[%s]" % ";\n ".join(cs)))
         ctx.log("model terms built: %d cases in %d terms" % (len(keys), len(terms)))
         # one coqc process per core: coq_eval's default (len(terms) // 40) would put all ~55 large terms in a single process
@@ -751,14 +859,15 @@ def run(ctx):
         for i in range(0, len(keys), chunk):
             for k, mv in zip(keys[i:i + chunk], res["c%d" % i]):
                 t, rec, refs = model_cases[k]
-                d = compare_model(t, rec, mv)
+                d = compare_model(t, rec, mv, k[4])
                 if d:
-                    disagree.append({"template": t.id, "round": k[1], "collector": k[2], "static_max_level": k[3], "what": d,
+                    disagree.append({"template": t.id, "round": k[1], "collector": k[2], "static_max_level": k[3], "log_build": k[4], "what": d,
                                      "rust": describe(t)["rust"]})
         rep.tie("correspondence:model-vs-implementation", not disagree, "%d of %d cases disagree" % (len(disagree), len(keys)), disagree[:1] or None)
         rep.extra["model_cases"] = len(keys)
         rep.extra["model_cases_static"] = n_static
-        ctx.log("model evaluated on %d cases (%d under the static cap), %d disagreements" % (len(keys), n_static, len(disagree)))
+        rep.extra["model_cases_log"] = n_log
+        ctx.log("model evaluated on %d cases (%d under the static cap, %d in the log build), %d disagreements" % (len(keys), n_static, n_log, len(disagree)))
     except Exception as ex:  # ModelEvalError or an encoding problem: the tie is broken, the oracle has already run
         rep.tie("model-eval", False, str(ex)[:400])
     rep.extra["corpus_templates"] = len(tpls)
@@ -767,7 +876,7 @@ def run(ctx):
     return rep
 
 
-def compare_model(t, rec, mv):
+def compare_model(t, rec, mv, logbuild=False):
     """None if the model's answer equals the implementation's observation, else a short description."""
     tag, val = mv if isinstance(mv, tuple) and len(mv) == 2 else (None, mv)
     if tag == "inl":
@@ -789,8 +898,9 @@ def compare_model(t, rec, mv):
     for x in ticks:
         if x < nt:
             mt[x] += 1
-    if delivered:
-        # record_all! evaluates its own value set (only on an enabled span); its laziness is not part of the model
+    if delivered or logbuild:
+        # record_all! evaluates its own value set on a span that has metadata (an enabled one; with `log`, a disabled one
+        # too); its laziness is not part of the model
         for op in t.post:
             if op["op"] == "record_all":
                 for it2 in op["items"]:
